@@ -199,7 +199,10 @@ def rule_subset(ctx):
         if t.op == "comp" and t.a[0] == "list" and len(t.a[2]) == 1 and not t.a[3]:
             it = t.a[2][0]
             elt = t.a[1]
-            if it.op == "sub" and it.a[0].op == "call" and call_name(it.a[0]) == "np.array" and it.a[0].a[1][0].op == "call" and call_name(it.a[0].a[1][0]) == "transcription.match_notes":
+            src_ = it.a[0] if it.op == "sub" else None
+            if src_ is not None and src_.op == "call" and call_name(src_) == "np.array" and src_.a[1]:
+                src_ = src_.a[1][0]  # np.array(matching) / np.asarray(matching): the pairs as an array
+            if it.op == "sub" and src_ is not None and src_.op == "call" and call_name(src_) == "transcription.match_notes":
                 mask = it.a[1]
                 is_mask = mask.op == "cmp" and mask.a[0] in ("<", "<=")
                 elt_ok = elt.op == "call" and call_name(elt) == "builtins.tuple" and elt.a[1][0].op == "iter" and elt.a[1][0].a[0] is it
